@@ -10,7 +10,7 @@ ASSUMPTIONS = [
     "a null id is accepted only on an error response built for a request whose id is unknown (JSON-RPC 2.0 section 5)",
 ]
 STUBS = ["VClock/fake_fail_after", "ScriptedReadStream", "RecordingWriteStream", "uuid4 counter"]
-OUTSIDE = ["payload text through orjson / pydantic-core beyond the corpus", "ids longer than 3 characters, method names longer than 3", "transport-synthesised messages are checked in C11/C12 with the same grammar"]
+OUTSIDE = ["payload text through orjson / pydantic-core beyond the corpus", "ids longer than 3 characters, method names longer than 3", "transport-SYNTHESISED messages are checked in C11/C12 with the same grammar (what the transports emit for constructor-built messages is checked here)"]
 
 
 def names(ctx, expr):
@@ -47,6 +47,11 @@ def obligations(tier, ctx):
         for what in (0, 1, 2, 3):
             obs.append(Ob(name=f"ctorjsonval{which}_{what}", params=[("i", "int"), ("v", "int")], pre=["0 <= i <= 8", "0 <= v <= 7"],
                           call=f"H.ctor_json_val({which}, {what}, i, v)", backend="P", timeout=300, family="constructors, numeric/nested corpus through the real encoder (Pydantic)"))
+    for which in (0, 1):
+        for what in (0, 1, 2, 3):
+            obs.append(Ob(name=f"wire{which}_{what}", params=[("i", "int"), ("p", "int"), ("s", "int")], pre=["0 <= i <= 8", "p in (0, 2, 4)", "s in (0, 1, 2, 6)"],
+                          call=f"H.wire_transports({which}, {what}, i, p, s)", backend="P", timeout=400,
+                          family="transports' serialisers: stdio line, HTTP and SSE posted value for constructor-built messages (Pydantic)"))
     for n in discover(ctx):
         obs.append(Ob(name="helper_" + n, params=[("x", "int")], pre=["x == 0"], call=f"H.helper_wire({n!r})", backend="P", timeout=120, family="typed request helpers"))
     for n in names(ctx, "list(H.NOTIFIERS)"):
